@@ -42,7 +42,35 @@ def run_case(case):
     return res
 
 
+TOUCHED = {"data.py": ["C09", "C14"], "dag_ast.py": ["C05", "C06", "C15", "C07", "C01"], "language.py": ["C01", "C02", "C04", "C08", "C16", "C11"],
+           "analysis.py": ["C10", "C15"], "exec_numpy.py": ["C01", "C08", "C11", "C04"], "transform.py": ["C07", "C16", "C15"],
+           "utils.py": ["C13", "C20", "C08", "C15"], "expression.py": ["C17", "C18", "C08", "C19"], "python.py": ["C01", "C11", "C13", "C15", "C20"],
+           "function_registry.py": ["C09", "C01"], "fortran.py": ["C13", "C15", "C20"]}
+
+
+def cross():
+    """--cross: every seeded change against the checks of OTHER properties anchored in the files it touches; prints
+    the exit codes for review (an exit 1 there is right only if that property is really broken by the change)"""
+    cases = []
+    for d in sorted(os.listdir(SEEDED)):
+        full = os.path.join(SEEDED, d)
+        if d == "harmless" or not os.path.isdir(full):
+            continue
+        meta = json.load(open(os.path.join(full, "meta.json")))
+        txt = open(os.path.join(full, "patch.diff")).read()
+        ps = sorted({p for name, pl in TOUCHED.items() if ("/" + name) in txt for p in pl} - {meta["property"]})
+        if ps:
+            cases.append(("harmless", d, os.path.join(full, "patch.diff"), ps))     # judged as "exit 0/2 expected"; review the others
+    with ThreadPoolExecutor(JOBS) as ex:
+        for res in ex.map(run_case, cases):
+            for kind, cid, prop, what, ok in res:
+                print("cross     %-10s %-4s %-22s %s" % (cid, prop, what, "" if ok else "REVIEW"), flush=True)
+    return 0
+
+
 def main():
+    if "--cross" in sys.argv:
+        return cross()
     want = set(sys.argv[1:])
     cases = []
     for d in sorted(os.listdir(SEEDED)):
